@@ -282,6 +282,13 @@ pub fn replay(op: &str, args: &Sx) -> String {
             Some(t) => real_parse(t.as_bytes()),
             _ => "(harness-error decode)".into(),
         },
+        ("tte", 1) => {
+            let nm: Option<String> = a[0].list().and_then(|l| l.iter().map(|c| char::from_u32(c.atom()?.parse().ok()?)).collect());
+            match nm {
+                Some(sp) => real_tte(&sp),
+                None => "(harness-error decode)".into(),
+            }
+        }
         ("sym", 4) => {
             let nm = |x: &Sx| -> Option<String> { x.list()?.iter().map(|c| char::from_u32(c.atom()?.parse().ok()?)).collect() };
             match (a[0].atom().and_then(|s| s.parse().ok()), nm(&a[1]), a[2].atom().and_then(|s| s.parse().ok()), nm(&a[3])) {
@@ -1191,7 +1198,18 @@ pub fn real_sym(i1: usize, n1: &str, i2: usize, n2: &str) -> String {
     })
 }
 
+/// TruthTableEntry: parsing of a spelling, the three predicates, Display (also padded, as the table printer uses it)
+pub fn real_tte(sp: &str) -> String {
+    guard(|| match sp.parse::<rsbdd::TruthTableEntry>() {
+        Err(_) => "(err)".into(),
+        Ok(e) => format!("(ok {} {} {} {} {})", e.is_true() as u8, e.is_false() as u8, e.is_any() as u8, name_sx(&format!("{e}")).show(), name_sx(&format!("{e:>7}|{e:<6}|")).show()),
+    })
+}
+
 pub fn part_sym(out: &mut Out, _o: &Opts) {
+    for sp in ["true", "True", "t", "T", "1", "false", "False", "f", "F", "0", "any", "Any", "a", "A", "*", "", "TRUE", "yes", "2", "tr", "Truee", " true", "true ", "-", "**", "ANY", "no", "01", "fa", "x"] {
+        out.emit("tte", &Sx::l(vec![name_sx(sp)]).show(), &real_tte(sp));
+    }
     // small ids, and ids that coincide after truncation to 8, 16, 32 or 63 bits
     let ids = [0usize, 1, 2, 7, 3 + (1 << 8), 3 + (1 << 16), 3 + (1 << 32), 7 + (1 << 32), 1 << 32, (1 << 63) + 2, usize::MAX - 1, usize::MAX];
     let syms: Vec<(usize, &str)> = ids.iter().flat_map(|&i| ["a", "b", "", "é'"].iter().map(move |&n| (i, n))).collect();
